@@ -21,6 +21,7 @@ import (
 	"bytes"
 	"flag"
 	"fmt"
+	"io"
 	"math"
 	"math/big"
 	"os"
@@ -717,6 +718,144 @@ func unhex(s string) []byte {
 	return b
 }
 
+// ---- transport independence: the same bytes through ZeroCopy / io.Reader must give the same data ----
+
+type oneByteReader struct {
+	b []byte
+	i int
+}
+
+func (r *oneByteReader) Read(p []byte) (int, error) {
+	if r.i >= len(r.b) {
+		return 0, io.EOF
+	}
+	if len(p) == 0 {
+		return 0, nil
+	}
+	p[0] = r.b[r.i]
+	r.i++
+	return 1, nil
+}
+
+type transport struct {
+	name string
+	run  func(D DOpts, b []byte) outcome
+}
+
+func decodeVia(mk func(h *codec.CborHandle, b []byte) *codec.Decoder) func(D DOpts, b []byte) outcome {
+	return func(D DOpts, b []byte) outcome {
+		return guarded(func() outcome {
+			var v interface{}
+			h := D.handle()
+			d := mk(h, append([]byte{}, b...))
+			err := d.Decode(&v)
+			o := outcome{cls: codec.VerifErrClass(err)}
+			if err == nil {
+				it, ok := FromGo(v)
+				if !ok {
+					o.cls = clsShape
+				}
+				o.it = it
+			}
+			return o
+		})
+	}
+}
+
+var transports = []transport{
+	{"bytes-zerocopy", decodeVia(func(h *codec.CborHandle, b []byte) *codec.Decoder {
+		h.ZeroCopy = true
+		return codec.NewDecoderBytes(b, h)
+	})},
+	{"io-unbuffered", decodeVia(func(h *codec.CborHandle, b []byte) *codec.Decoder {
+		return codec.NewDecoder(bytes.NewReader(b), h)
+	})},
+	{"io-unbuffered-1byte", decodeVia(func(h *codec.CborHandle, b []byte) *codec.Decoder {
+		return codec.NewDecoder(&oneByteReader{b: b}, h)
+	})},
+	{"io-buffer16-1byte", decodeVia(func(h *codec.CborHandle, b []byte) *codec.Decoder {
+		h.ReaderBufferSize = 16
+		return codec.NewDecoder(&oneByteReader{b: b}, h)
+	})},
+	{"io-buffer4096", decodeVia(func(h *codec.CborHandle, b []byte) *codec.Decoder {
+		h.ReaderBufferSize = 4096
+		return codec.NewDecoder(bytes.NewReader(b), h)
+	})},
+}
+
+// items holding several strings: what a shared scratch buffer would corrupt
+func stringyItem(r *vh.Rng) *Item {
+	str := func() *Item {
+		k := KStr
+		if r.Chance(1, 3) {
+			k = KBytes
+		}
+		return &Item{K: k, S: randStrBytes(r, 1+r.Intn(12), true)}
+	}
+	switch r.Intn(3) {
+	case 0:
+		it := &Item{K: KArr}
+		for i, n := 0, 2+r.Intn(4); i < n; i++ {
+			it.L = append(it.L, str())
+		}
+		return it
+	case 1:
+		it := &Item{K: KMap}
+		seen := map[string]bool{}
+		for i, n := 0, 2+r.Intn(3); i < n; i++ {
+			k := str()
+			if seen[string(k.S)] {
+				continue
+			}
+			seen[string(k.S)] = true
+			it.M = append(it.M, [2]*Item{k, str()})
+		}
+		return it
+	}
+	return &Item{K: KArr, L: []*Item{str(), {K: KArr, L: []*Item{str(), str()}}, {K: KTag, T: 100, V: str()}, str()}}
+}
+
+func transportStream(c *ctx, n int, stats map[string]int) {
+	r := c.r.Fork()
+	for i := 0; i < n; i++ {
+		var it *Item
+		if r.Chance(2, 3) {
+			it = stringyItem(r)
+		} else {
+			it = RandItem(r, GenOpts{MaxDepth: r.PickInt(1, 2, 3), Tags: true, BigLens: true, SafeKeys: true}, 0)
+		}
+		refForceChunked = r.Chance(2, 3)
+		b := RefEnc(r, it, true, stats)
+		refForceChunked = false
+		if len(b) > 2500 {
+			continue
+		}
+		D := randDOpts(r)
+		D.MaxDepth = 0
+		want := normDec(it, D, false)
+		base := decodeIface(D, b)
+		for _, tr := range transports {
+			o := tr.run(D, b)
+			cj := map[string]interface{}{"transport": tr.name, "dopts": D.String(), "bytes": vh.Hex(b), "cls": o.cls, "item": clip(it.Canon())}
+			if o.it != nil {
+				cj["decoded"] = clip(o.it.Canon())
+			}
+			switch {
+			case o.cls == clsHang:
+				c.sum.FailC("transport", "hang:"+tr.name, "Decode did not return within 3 s", cj)
+			case o.cls == clsPanic:
+				c.sum.FailC("transport", "panic:"+tr.name, "Decode panicked instead of returning an error", cj)
+			case want != nil && (o.cls != clsOK || !sameData(o.it, want)):
+				cj["want"] = clip(want.Canon())
+				c.sum.FailC("transport", "data-differs:"+tr.name+":"+kindName(it), "a well-formed serialisation did not decode to the data RFC 8949 assigns to it through this transport", cj)
+			case o.cls != base.cls || (o.cls == clsOK && !sameData(o.it, base.it)):
+				c.sum.FailC("transport", "depends-on-transport:"+tr.name+":"+kindName(it), "the decoded value depends on how the bytes are delivered", cj)
+			}
+			c.sum.Count("transport."+tr.name, fmt.Sprintf("tr/%s/%s/cls%d/%s", tr.name, kindName(it), o.cls, lenClass(len(b))))
+		}
+	}
+}
+
 func firstByte(b []byte) int {
 	if len(b) == 0 {
 		return -1
@@ -998,6 +1137,7 @@ func main() {
 	nFirst := flag.Int("first", 3, "cases per first byte")
 	nSkip := flag.Int("skip", 300, "skip cases")
 	nLeaf := flag.Int("leaf", 300, "float leaf cases")
+	nTransport := flag.Int("transport", 200, "transport-independence cases (x5 transports)")
 	deep := flag.Bool("deep", true, "run the deep-nesting subprocess cases")
 	child := flag.String("child", "", "(internal) run one deep case")
 	cases := flag.String("cases", "/verif/build/wcbor/cases_wirecbor", "directory for the model case files")
@@ -1010,7 +1150,7 @@ func main() {
 	sum := vh.NewSummary("enc: random item trees (all 13 constructors but IExt; depth <= 3; lengths around 23/24, 255/256, 65535/65536; boundary integers and floats) x 16 encoder option vectors, distinct by (kind, depth, length class, options); " +
 		"dec: reference-encoded alternatives (non-minimal heads, indefinite strings/arrays/maps, half/single floats, undefined) / one mutation / random bytes / all 256 first bytes x tails, distinct by (kind or first byte, outcome class, length class, options); " +
 		"skip: Raw capture and unknown-field skip on valid, mutated and cursor-wrapping inputs, distinct by (depth, outcome class, first byte); " +
-		"leaf: all 65536 half floats + float conversions, distinct by input; deep: 10 repeated-descriptor inputs of 3-4.5 MB in a subprocess with a 64 MB stack cap. Trivial = nil/bool encode cases")
+		"leaf: all 65536 half floats + float conversions, distinct by input; transport: reference-encoded items (mostly several chunked strings per item) decoded through []byte+ZeroCopy and io.Reader (unbuffered, 1-byte reads, 16 B and 4 KB buffers) vs the spec data and the []byte result; deep: 10 repeated-descriptor inputs of 3-4.5 MB in a subprocess with a 64 MB stack cap. Trivial = nil/bool encode cases")
 	c := &ctx{r: r, sum: sum}
 	c.cv = vh.NewCases(*cases, coqHeader, "case", "mismatches", 40)
 	stats := map[string]int{}
@@ -1022,6 +1162,7 @@ func main() {
 	skipStream(c, valid, *nSkip)
 	leafStream(c, *nLeaf)
 	c.cv.Close()
+	transportStream(c, *nTransport, stats)
 	if *deep {
 		deepStream(c)
 	}
